@@ -307,6 +307,9 @@ func Main(t *testing.T, e Engine) {
 	for i := 0; i < nwarm; i++ {
 		warm := e.Generate(0x5EED0FF+uint64(i)*7919, tier)
 		warm.SchedSeed = uint64(i + 1)
+		if w, ok := e.(interface{ WarmupCase(*Case, int) }); ok {
+			w.WarmupCase(warm, i) // an engine may widen the generated case so that it touches every lazily initialised path
+		}
 		execute(e, t, warm, false)
 	}
 
